@@ -3544,11 +3544,14 @@ impl Zeroconf {
             }
 
             Command::InvalidIntfAddrs(invalid_intf_addrs) => {
+                // What is gone from the system is handled by the regular check,
+                // which also drops what was learned on a vanished interface.
+                self.check_ip_changes();
+
+                // What is still listed but cannot be used is dropped here.
                 for intf_addr in invalid_intf_addrs {
                     self.del_interface_addr(&intf_addr);
                 }
-
-                self.check_ip_changes();
             }
 
             _ => {
